@@ -9,6 +9,8 @@ import J5V.Compile.AppendEditSvc
 import J5V.Compile.EvolveAdm
 import J5V.Compile.EvolveEnumPkg
 import J5V.Compile.EvolveDeepSvc
+import J5V.Compile.EvolveOptDeepPkg
+import J5V.Compile.EvolveOptDeepSvc
 import J5V.Generated.EvolveFacts
 /-!
 # C13 — appending declarations never changes existing wire identities
@@ -293,7 +295,7 @@ theorem C13_append_field_method_deep_pkg (b b' : Bundle) (pkg : Str) (fi i m : N
     simp only [Edit.applyFile] at happ
     obtain ⟨elems', hed, rfl⟩ := Option.map_eq_some_iff.mp happ
     obtain ⟨E1, E2, sv, M1, M2, mt, mt', r, r', h1, h2, h3, h4, h5, h6, h7⟩ :=
-      editElems_field_method_deep prop i m rq rest elems elems' hed
+      editElems_field_method_deep (.field prop) i m rq rest elems elems' hed
     subst h1; subst h2
     have hget : p.files[fi]? = some (.j5s path imports (E1 ++ [.service sv] ++ E2) decl) := by
       rw [hp]
@@ -388,9 +390,9 @@ theorem C13_append_field_topic_deep_pkg (b b' : Bundle) (pkg : Str) (fi i k m : 
   | j5s path imports elems decl =>
     simp only [Edit.applyFile] at happ
     obtain ⟨elems', hed, rfl⟩ := Option.map_eq_some_iff.mp happ
-    obtain ⟨E1, E2, t, t', h1, h2, h3, ht⟩ := editElems_field_topic_deep prop i k m rest elems elems' hed
+    obtain ⟨E1, E2, t, t', h1, h2, h3, ht⟩ := editElems_field_topic_deep (.field prop) i k m rest elems elems' hed
     subst h1; subst h2
-    obtain ⟨N1, N2, tn, tn', T1, T2, tm, ps', n1, n2, hx, hps⟩ := editTopic_field_deep prop k m rest t t' ht
+    obtain ⟨N1, N2, tn, tn', T1, T2, tm, ps', n1, n2, hx, hps⟩ := editTopic_field_deep (.field prop) k m rest t t' ht
     have hget : p.files[fi]? = some (.j5s path imports (E1 ++ [.topic t] ++ E2) decl) := by
       rw [hp]
       simp only [Edit.file] at hlen
@@ -488,6 +490,109 @@ theorem C13_append_option_pkg (b b' : Bundle) (pkg : Str) (fi i : Nat) (o : Str)
       (fun s s' hs hs' => summary_append_option_up path imports E1 E2 e o s s' hs hs')
       (fun res fs fs' hc hc' => convertFile_append_option_top res path imports E1 E2 e o fs fs' hc hc')
 
+/-- **Append an option to a nested or inline enum at any depth — package level.** Path `el i :: rest`
+where the `i`-th element is an object or a oneof (`hkind`) and `rest` is any path the edit accepts:
+`nest k` steps through nested objects / oneofs ending at a nested enum, or further `prop j` steps
+through inline objects / oneofs ending at a property that holds an inline enum (directly or as array /
+map item). Both versions compiling — no other hypothesis: the enum may be referred to by name from
+anywhere in the package, its own field may carry `in` / `notIn` rules and default filters. Every
+generated file is generated again with the same services, every message found again with the SAME
+fields and, recursively, its nested messages found again and every nested enum found again with its
+old values — names and numbers — a prefix (`FileSkel.LeDeep`). Uses that the old conversion recorded
+no error (`convertFile_ok_inv`): every value check that passed still passes with one more name
+(`editDecl_opt_deep`), the export table changes in one entry only (`editDecl_opt_exports`), and
+conversion is invariant under more value names of referenced enums (`convertFile_up`). -/
+theorem C13_append_option_nested_pkg (b b' : Bundle) (pkg : Str) (fi i : Nat) (rest : List PStep)
+    (o : Str)
+    (he : (Edit.appendOption fi (.el i :: rest) o).apply pkg b = some b')
+    (fs fs' : List FileSkel) (h : compilePkg b pkg = .ok fs) (h' : compilePkg b' pkg = .ok fs')
+    (hkind : ∀ p path imports elems decl, b.find pkg = some p →
+      p.files[fi]? = some (.j5s path imports elems decl) → ∃ io d, elems[i]? = some (declElem io d)) :
+    ∀ f ∈ fs, ∃ f' ∈ fs', f.LeDeep f' := by
+  obtain ⟨p, pre, post, g, g', hf, hp, hlen, happ, hf', hother, hl⟩ := apply_edit_struct _ b pkg b' he
+  cases g with
+  | proto pth msgs enums => simp [Edit.applyFile] at happ
+  | j5s path imports elems decl =>
+    simp only [Edit.applyFile] at happ
+    obtain ⟨elems', hed, rfl⟩ := Option.map_eq_some_iff.mp happ
+    have hget0 : p.files[fi]? = some (.j5s path imports elems decl) := by
+      rw [hp]
+      simp only [Edit.file] at hlen
+      rw [← hlen]; simp
+    obtain ⟨io, d, hk⟩ := hkind p path imports elems decl hf hget0
+    obtain ⟨E1, E2, d', h1, h2, h3, hdecl⟩ := editElems_option_decl o i rest elems elems' io d hk hed
+    subst h1; subst h2
+    exact replace_elems_compile_up FileSkel.LeDeep FileSkel.LeDeep.refl b b' pkg p pre post path imports
+      _ _ decl hp hf hf' hother hl fs fs' h h'
+      (fun s s' hs hs' => summary_append_option_deep path imports E1 E2 io d d' rest o hdecl s s' hs hs')
+      (fun res fs fs' hc hc' => convertFile_append_option_deep res path imports E1 E2 io d d' rest o hdecl
+        fs fs' hc hc')
+
+/-- **Append an option to an inline enum below a request / response — package level.** Path
+`el i :: method m :: (req | res) :: rest`, `rest` a `prop j` path ending at a property holding an inline
+enum. Both versions compiling, nothing else: same services, every message found again with the same
+fields, the enum found again (nested in `<Method>Request…`) with its values a prefix. -/
+theorem C13_append_option_method_deep_pkg (b b' : Bundle) (pkg : Str) (fi i m : Nat) (rq : Bool)
+    (rest : List PStep) (o : Str)
+    (he : (Edit.appendOption fi (.el i :: .method m :: reqStep rq :: rest) o).apply pkg b = some b')
+    (fs fs' : List FileSkel) (h : compilePkg b pkg = .ok fs) (h' : compilePkg b' pkg = .ok fs') :
+    ∀ f ∈ fs, ∃ f' ∈ fs', f.LeDeep f' := by
+  obtain ⟨p, pre, post, g, g', hf, hp, hlen, happ, hf', hother, hl⟩ := apply_edit_struct _ b pkg b' he
+  cases g with
+  | proto pth msgs enums => simp [Edit.applyFile] at happ
+  | j5s path imports elems decl =>
+    simp only [Edit.applyFile] at happ
+    obtain ⟨elems', hed, rfl⟩ := Option.map_eq_some_iff.mp happ
+    obtain ⟨E1, E2, sv, M1, M2, mt, mt', r, r', h1, h2, h3, h4, h5, h6, h7⟩ :=
+      editElems_field_method_deep (.option o) i m rq rest elems elems' hed
+    subst h1; subst h2
+    obtain ⟨hexp, hrefs⟩ := editProps_opt_exports o rest r r' h7 [methodObjName rq mt]
+    obtain ⟨hE, hR⟩ := serviceItem_exports_up sv M1 M2 mt mt' rq r r' h4 h6 hexp hrefs
+    exact replace_elems_compile_up FileSkel.LeDeep FileSkel.LeDeep.refl b b' pkg p pre post path imports
+      _ _ decl hp hf hf' hother hl fs fs' h h'
+      (fun s s' hs hs' => summary_single_item_up path imports E1 E2 (.service sv)
+        (.service { sv with methods := M1 ++ [mt'] ++ M2 }) (.serviceFile [sv])
+        (.serviceFile [{ sv with methods := M1 ++ [mt'] ++ M2 }]) rfl rfl hE hR s s' hs hs')
+      (fun res fs fs' hc hc' => convertFile_single_item_c res path imports E1 E2 (.service sv)
+        (.service { sv with methods := M1 ++ [mt'] ++ M2 }) (.serviceFile [sv])
+        (.serviceFile [{ sv with methods := M1 ++ [mt'] ++ M2 }]) rfl rfl rfl
+        (fun c hit => serviceItem_msgs_deepE c sv M1 M2 mt mt' rq r r' h4 h6 hit
+          (fun np io n hn => editProps_opt_deep c o rest r r' h7 np io n hn))
+        (fun c => by rw [itemEnums_serviceFile, itemEnums_serviceFile])
+        (fun c => serviceItem_svcs_deep c sv M1 M2 mt mt' rq r r' h4 h6) fs fs' hc hc')
+
+/-- **…and below a topic message** (`el i :: (msg | reqm | repm) m :: rest`, all four topic types). -/
+theorem C13_append_option_topic_deep_pkg (b b' : Bundle) (pkg : Str) (fi i k m : Nat)
+    (rest : List PStep) (o : Str)
+    (he : (Edit.appendOption fi (.el i :: topicStep k m :: rest) o).apply pkg b = some b')
+    (fs fs' : List FileSkel) (h : compilePkg b pkg = .ok fs) (h' : compilePkg b' pkg = .ok fs') :
+    ∀ f ∈ fs, ∃ f' ∈ fs', f.LeDeep f' := by
+  obtain ⟨p, pre, post, g, g', hf, hp, hlen, happ, hf', hother, hl⟩ := apply_edit_struct _ b pkg b' he
+  cases g with
+  | proto pth msgs enums => simp [Edit.applyFile] at happ
+  | j5s path imports elems decl =>
+    simp only [Edit.applyFile] at happ
+    obtain ⟨elems', hed, rfl⟩ := Option.map_eq_some_iff.mp happ
+    obtain ⟨E1, E2, t, t', h1, h2, h3, ht⟩ := editElems_field_topic_deep (.option o) i k m rest elems elems' hed
+    subst h1; subst h2
+    obtain ⟨N1, N2, tn, tn', T1, T2, tm, ps', n1, n2, hx, hps⟩ := editTopic_field_deep (.option o) k m rest t t' ht
+    obtain ⟨hexp, hrefs⟩ := editProps_opt_exports o rest tm.props ps' hps [topicObjName tn tm]
+    obtain ⟨hE, hR⟩ := topicItem_exports_up t t' N1 N2 tn tn' T1 T2 tm ps' n1 n2 hx hexp hrefs
+    exact replace_elems_compile_up FileSkel.LeDeep FileSkel.LeDeep.refl b b' pkg p pre post path imports
+      _ _ decl hp hf hf' hother hl fs fs' h h'
+      (fun s s' hs hs' => by
+        rcases hE with hE | hE
+        · exact summary_single_item_same path imports E1 E2 (.topic t) (.topic t') (.topicFile [t])
+            (.topicFile [t']) rfl rfl hE hR s s' hs hs'
+        · exact summary_single_item_up path imports E1 E2 (.topic t) (.topic t') (.topicFile [t])
+            (.topicFile [t']) rfl rfl hE hR s s' hs hs')
+      (fun res fs fs' hc hc' => convertFile_single_item_c res path imports E1 E2 (.topic t) (.topic t')
+        (.topicFile [t]) (.topicFile [t']) rfl rfl rfl
+        (fun c hit => topicItem_msgs_deepE c t t' N1 N2 tn tn' T1 T2 tm ps' n1 n2 hx hit
+          (fun np io n hn => editProps_opt_deep c o rest tm.props ps' hps np io n hn))
+        (fun c => by rw [itemEnums_topicFile, itemEnums_topicFile])
+        (fun c => topicItem_svcs_deep c t t' N1 N2 tn tn' T1 T2 tm ps' n1 n2 hx) fs fs' hc hc')
+
 /-- the congruence behind it, on its own: a file that converts keeps converting to the SAME files when
 the resolver changes only by giving referenced enums more value names -/
 theorem C13_convert_up (res res' : Resolver) (path : Str) (imports : List Import)
@@ -552,6 +657,15 @@ theorem C13_append_any_pkg (b b' : Bundle) (pkg : Str) (e : Edit) (hadm : Admiss
       fun _ hx => ⟨hx.1, hx.2.any⟩
   | topicDeep fi i k m rest prop hfr =>
     exact (C13_append_field_topic_deep_pkg b b' pkg fi i k m rest prop he fs fs' h h' hfr f hf).imp
+      fun _ hx => ⟨hx.1, hx.2.any⟩
+  | optionDeep fi i rest o hk =>
+    exact (C13_append_option_nested_pkg b b' pkg fi i rest o he fs fs' h h' hk f hf).imp
+      fun _ hx => ⟨hx.1, hx.2.any⟩
+  | optionMethodDeep fi i m rq rest o =>
+    exact (C13_append_option_method_deep_pkg b b' pkg fi i m rq rest o he fs fs' h h' f hf).imp
+      fun _ hx => ⟨hx.1, hx.2.any⟩
+  | optionTopicDeep fi i k m rest o =>
+    exact (C13_append_option_topic_deep_pkg b b' pkg fi i k m rest o he fs fs' h h' f hf).imp
       fun _ hx => ⟨hx.1, hx.2.any⟩
   | option fi i o =>
     exact (C13_append_option_pkg b b' pkg fi i o he fs fs' h h' f hf).imp fun _ hx => ⟨hx.1, hx.2.any⟩
@@ -699,6 +813,56 @@ def bunER' : Bundle :=
 example : ((Edit.appendOption 0 [.el 0] b!"TWO").apply b!"foo.v1" bunER).isSome = true ∧
     (compilePkg bunER b!"foo.v1").isOk = true ∧ (compilePkg bunER' b!"foo.v1").isOk = true ∧
     [fileER, fileB].flatMap srcFileRefs = [([], b!"E"), ([], b!"A")] := by
+  decide
+/-- object `G` with an inline enum field `kind` (with an `in` rule naming one of its values), an array of
+inline enums, and an inline object holding an inline enum; another object refers to `G.Kind` by name.
+An option is appended to each of the three inline enums (paths `prop 0`, `prop 1`, `prop 2, prop 0`):
+the hypotheses of `C13_append_option_nested_pkg` -/
+def fileG : SrcFile :=
+  .j5s b!"foo/v1/g.j5s" []
+    [.object (.mk b!"G"
+      [.mk b!"kind" false false (.enumInl { name := [], pfx := [], opts := [b!"ONE"] } [⟨b!"in", .strs [b!"ONE"]⟩] none),
+       .mk b!"tags" false false (.array (.enumInl { name := b!"Tag", pfx := [], opts := [b!"A"] } [] none) []),
+       .mk b!"sub" false false (.objectInl [] [.mk b!"mode" false false
+          (.enumInl { name := [], pfx := [], opts := [b!"X"] } [] none)] false [])] [] none),
+     .object (.mk b!"H" [.mk b!"k" false false (.enumRef [] b!"G.Kind" [⟨b!"in", .strs [b!"ONE"]⟩] none)] [] none)]
+    b!"foo.v1"
+def bunG : Bundle := { pkgs := [ { name := b!"foo.v1", files := [fileG] } ] }
+def bunG' (rest : List PStep) : Bundle :=
+  match (Edit.appendOption 0 (.el 0 :: rest) b!"TWO").apply b!"foo.v1" bunG with
+  | some b => b | none => { pkgs := [] }
+
+example : (compilePkg bunG b!"foo.v1").isOk = true ∧
+    (compilePkg (bunG' [.prop 0]) b!"foo.v1").isOk = true ∧
+    (compilePkg (bunG' [.prop 1]) b!"foo.v1").isOk = true ∧
+    (compilePkg (bunG' [.prop 2, .prop 0]) b!"foo.v1").isOk = true ∧
+    (bunG' [.prop 0]).pkgs.length = 1 ∧ (bunG' [.prop 1]).pkgs.length = 1 ∧
+    (bunG' [.prop 2, .prop 0]).pkgs.length = 1 := by
+  decide
+/-- a request with an inline enum (with an `in` rule) and a topic message with an inline enum inside an
+inline object: an option is appended to each (`C13_append_option_method_deep_pkg`,
+`C13_append_option_topic_deep_pkg`) -/
+def fileSO : SrcFile :=
+  .j5s b!"foo/v1/s.j5s" []
+    [.service { name := some b!"Foo", basePath := some b!"/foo", methods :=
+      [{ name := b!"DoFoo", verb := .post, path := b!"/x",
+         request := some [.mk b!"mode" false false
+           (.enumInl { name := [], pfx := [], opts := [b!"FAST"] } [⟨b!"in", .strs [b!"FAST"]⟩] none)],
+         response := some [] }] },
+     .topic { name := b!"Foo", type := .publish [{ name := some b!"Created", props :=
+        [.mk b!"detail" false false (.objectInl [] [.mk b!"level" false false
+          (.enumInl { name := [], pfx := [], opts := [b!"LOW"] } [] none)] false [])] }] }]
+    b!"foo.v1"
+def bunSO : Bundle := { pkgs := [ { name := b!"foo.v1", files := [fileSO] } ] }
+def bunSO' (path : List PStep) : Bundle :=
+  match (Edit.appendOption 0 path b!"NEXT").apply b!"foo.v1" bunSO with
+  | some b => b | none => { pkgs := [] }
+
+example : (compilePkg bunSO b!"foo.v1").isOk = true ∧
+    (compilePkg (bunSO' [.el 0, .method 0, .req, .prop 0]) b!"foo.v1").isOk = true ∧
+    (compilePkg (bunSO' [.el 1, .msg 0, .prop 0, .prop 0]) b!"foo.v1").isOk = true ∧
+    (bunSO' [.el 0, .method 0, .req, .prop 0]).pkgs.length = 1 ∧
+    (bunSO' [.el 1, .msg 0, .prop 0, .prop 0]).pkgs.length = 1 := by
   decide
 /-- …and of `C13_append_field_method_pkg`: a service with one method; a field with an inline object is
 appended to the request (`rq = true`) and a scalar to the response -/
